@@ -120,7 +120,11 @@ ERR_ENUM = {'TypeError': 'TypeError', 'AssertionError': 'AssertionError', 'Overf
 
 
 def err_name(e):
-    return ERR_ENUM.get(type(e).__name__, 'Other')
+    """the documented exception class an exception belongs to: a subclass of AssertionError IS an AssertionError"""
+    for c in type(e).__mro__:
+        if c.__name__ in ERR_ENUM:
+            return ERR_ENUM[c.__name__]
+    return 'Other'
 
 
 def sort_rows(fr, skip_first=True):
